@@ -9,7 +9,7 @@ Not decided: the round-trip clause (reduces to C01).
 import re
 from .. import flow, err
 from ..facts import op_place, op_const, const_int, callee_def
-from ..common import strip_generics
+from ..common import strip_generics, PC
 
 SIG = 'unsafe extern "C" fn(*const u8, u64, *mut u8, u64, *mut u64) -> i32'
 PARAM_ROLE = {1: "input_ptr", 2: "input_len", 3: "output_ptr", 4: "output_len", 5: "result_size"}
@@ -52,6 +52,15 @@ def run(ctx, rep):
     for name, body in shims:
         _shim(F, rep, name, body)
     rep.floor("F6", "bounded-decompress-calls", sum(1 for o in rep.obs if o.rule == "F6"), 1)
+    # ---- F8: the Cursor over the caller's buffer is handed to recreated_zlib_chunks; "undersized buffer => negative status"
+    # needs its WriteZero error to come back, so nothing on that path may defer the writes behind an adaptor whose Drop
+    # discards the flush error (same rule as C13/R5, over the generic functions that receive the destination).
+    from . import c13
+    scope = c13.generic_scope(F, PC + "recreated_zlib_chunks")
+    rep.floor("F8", "destination-holding-functions", len(scope), 5)
+    c13.r5(F, rep, "F8", scope)
+    rep.add("F8", "no-unflushed-buffering", not any(o.rule == "F8" and not o.ok for o in rep.obs), "",
+            "functions that hold the destination: %s" % [s.split("::")[-1] for s in scope])
 
 
 def _shim(F, rep, name, body):
@@ -240,6 +249,8 @@ def _closure(F, rep, short, cb, cap_of):
                 bad.append(s[0])
                 continue
             n = strip_generics(callee_def(s[3]))
+            if re.match(r"^core::slice::(len|is_empty)$", n):
+                continue          # read-only observers of the slice header write nothing
             hit = [1 for pat, ai in OUT_SINKS if re.search(pat, n) and ai == s[2]]
             if not hit:
                 bad.append("%s#%d" % (n, s[2]))
